@@ -90,15 +90,15 @@ def mem_total_gb():
 
 
 def harness_need_gb(h):
-    """Expected peak resident memory of a harness (GB): the harness' need= key if it has one (measured), else a default
-    by its recorded running time (short queries are small)."""
+    """Expected peak resident memory of a harness (GB): its need= key (measured peak + 20 %, written by bin/update-est for
+    every harness measured above 2.5 GB), else half of an explicit mem= cap, else 3 GB (every quick harness has been
+    measured: no need= means it stayed below 2.5 GB).  The first version defaulted to 9 GB for anything slower than 120 s,
+    which admitted only five solver processes at a time and doubled the wall-clock time of C01."""
     if h.get("need"):
         return float(h["need"])
-    try:
-        est = float(h.get("est", "30"))
-    except ValueError:
-        est = 30.0
-    return 2.0 if est <= 40 else (5.0 if est <= 120 else 9.0)
+    if h.get("mem"):
+        return max(3.0, float(h["mem"]) * 0.5)
+    return 3.0
 
 
 def reserve_memory(need_gb, max_wait_s=3600):
@@ -374,6 +374,9 @@ def main():
                     return True
                 if a.measure_thorough:
                     if h["tier"] != "thorough":
+                        return False
+                    # VERIF_MEASURE_UNKNOWN=1: only harnesses that carry no measured est= yet
+                    if os.environ.get("VERIF_MEASURE_UNKNOWN") and h.get("est"):
                         return False
                 elif h["tier"] != "quick":
                     return False
